@@ -288,8 +288,8 @@ def is_single_peaked(instance):
                         x_j = x
     if is_SP:
         if axis is None:
-            axis = left_axis + right_axis
-        axis = to_append_left + axis
+            # the axis built in Case 2(d) already starts with to_append_left
+            axis = to_append_left + left_axis + right_axis
         return True, axis
     return False, None
 
